@@ -147,14 +147,14 @@ theorem lock_inv {cfg : Cfg} {s s' : State} {k : Kind} {pid : Id} {t : Txn} {trs
 /-- fields of a pool other than the delegate pools and the provider reward. -/
 def SameSettings (a b : SP) : Prop :=
   b.wallet = a.wallet ∧ b.maxDelegates = a.maxDelegates ∧ b.minStake = a.minStake ∧ b.ratio = a.ratio ∧
-  b.dead = a.dead ∧ b.offers = a.offers ∧ b.inner = a.inner
+  b.dead = a.dead ∧ b.offers = a.offers
 
-theorem SameSettings.rfl' (a : SP) : SameSettings a a := ⟨rfl, rfl, rfl, rfl, rfl, rfl, rfl⟩
+theorem SameSettings.rfl' (a : SP) : SameSettings a a := ⟨rfl, rfl, rfl, rfl, rfl, rfl⟩
 
 theorem SameSettings.trans {a b c : SP} (h1 : SameSettings a b) (h2 : SameSettings b c) : SameSettings a c := by
-  obtain ⟨a1, a2, a3, a4, a5, a6, a7⟩ := h1
-  obtain ⟨b1, b2, b3, b4, b5, b6, b7⟩ := h2
-  exact ⟨b1.trans a1, b2.trans a2, b3.trans a3, b4.trans a4, b5.trans a5, b6.trans a6, b7.trans a7⟩
+  obtain ⟨a1, a2, a3, a4, a5, a6⟩ := h1
+  obtain ⟨b1, b2, b3, b4, b5, b6⟩ := h2
+  exact ⟨b1.trans a1, b2.trans a2, b3.trans a3, b4.trans a4, b5.trans a5, b6.trans a6⟩
 
 /-- a transfer queue that only moves `n` tokens from the contract wallet `sc` to `client`. -/
 def PaysOnly (trs : List Ledger.Transfer) (sc client n : Nat) : Prop :=
@@ -374,27 +374,21 @@ theorem stakeOfClient_put (s : State) (k : Kind) (pid : Id) (sp sp' : SP) (kk : 
     (h : (kvGet sp'.pools c).map (fun d => (d.balance, d.stakedAt)) = (kvGet sp.pools c).map (fun d => (d.balance, d.stakedAt))) :
     stakeOfClient (putSP s k pid sp') kk c = stakeOfClient s kk c ∧
     stakeOfClient (saveSP s k pid sp') kk c = stakeOfClient s kk c := by
-  have hput : ∀ f : SP → SP, (∀ x, (f x).pools = x.pools) →
-      stakeOfClient { s with sps := kvSet s.sps (k, pid) (f sp') } kk c = stakeOfClient s kk c := by
-    intro f hf
-    unfold stakeOfClient
+  have hput : stakeOfClient (putSP s k pid sp') kk c = stakeOfClient s kk c := by
+    unfold stakeOfClient putSP
     by_cases hk : kk = (k, pid)
     · subst hk
       simp only
       rw [kvGet_kvSet_eq, hst]
-      simp only [Option.bind_some, hf]
+      simp only [Option.bind_some]
       exact h
     · simp only
       rw [kvGet_kvSet_ne _ _ _ _ hk]
-  constructor
-  · exact hput (fun x => { x with inner := if k = .authorizer then true else x.inner }) (fun _ => rfl)
-  · unfold saveSP
-    split
-    · exact hput (fun x => { x with inner := if k = .authorizer then false else x.inner }) (fun _ => rfl)
-    · exact hput (fun x => { x with inner := if k = .authorizer then true else x.inner }) (fun _ => rfl)
+  exact ⟨hput, hput⟩
 
-theorem loadSP_stored {s : State} {k : Kind} {pid : Id} {sp : SP} (h : loadSP s k pid = .ok sp)
-    (hne : k ≠ .authorizer) : kvGet s.sps (k, pid) = some sp := by
+/-- what a contract loads is the stored record (every kind). -/
+theorem loadSP_stored {s : State} {k : Kind} {pid : Id} {sp : SP} (h : loadSP s k pid = .ok sp) :
+    kvGet s.sps (k, pid) = some sp := by
   have : getSP s k pid = some sp := by
     unfold loadSP at h
     cases k with
@@ -430,8 +424,11 @@ theorem loadSP_stored {s : State} {k : Kind} {pid : Id} {sp : SP} (h : loadSP s 
       cases hg : getSP s .validator pid with
       | none => simp [hg] at h
       | some x => simp only [hg] at h; injection h with h; rw [h]
-    | authorizer => exact absurd rfl hne
-  rw [getSP_of_ne s k pid hne] at this
+    | authorizer =>
+      simp only at h
+      cases hg : getSP s .authorizer pid with
+      | none => simp [hg] at h
+      | some x => simp only [hg] at h; injection h with h; rw [h]
   exact this
 
 end ZChain.Provider
